@@ -14,7 +14,8 @@ fn probe<'gc, const A: usize, T: 'static + Copy + Default>(c: &ZstCache<'gc, A>,
     let p = c.alloc_static(mc, T::default());
     assert!((Gc::as_ptr(p) as usize) % mem::align_of::<T>() == 0, "[conv] the returned pointer is aligned for T");
     if c.is_cached(p) { assert!(should, "[conv] the shared pointer is returned ONLY for zero-sized types whose alignment does not exceed the cache's"); }
-    if should { assert!(Gc::ptr_eq(Gc::erase(p), c.cached_ptr()), "[conv] ZstCache allocation is ptr_eq to the cached pointer"); }
+    // (that the cache IS used for every fitting type is an optimisation, not part of C19: a more cautious cache keeps the property)
+    if c.is_cached(p) { assert!(Gc::ptr_eq(Gc::erase(p), c.cached_ptr()), "[conv] a cached allocation is ptr_eq to the shared pointer"); }
 }
 
 #[kani::proof]
@@ -23,7 +24,7 @@ fn k_zst_cache_only_fitting_zsts() {
         let cx = Context::new();
         let mc = cx.mutation_context();
         match kani::any::<u8>() % 3 {
-            0 => { let c = ZstCache::<1>::new(mc); probe::<1, Z1>(&c, mc); probe::<1, Z4>(&c, mc); probe::<1, Z16>(&c, mc); probe::<1, u8>(&c, mc); }
+            0 => { let c = ZstCache::<1>::new(mc); probe::<1, Z1>(&c, mc); kani::cover!(c.is_cached(c.alloc_static(mc, Z1))); probe::<1, Z4>(&c, mc); probe::<1, Z16>(&c, mc); probe::<1, u8>(&c, mc); }
             1 => { let c = ZstCache::<8>::new(mc); probe::<8, Z4>(&c, mc); probe::<8, Z8>(&c, mc); probe::<8, Z16>(&c, mc); probe::<8, Z32>(&c, mc); probe::<8, u64>(&c, mc); }
             _ => { let c = ZstCache::<16>::new(mc); probe::<16, Z16>(&c, mc); probe::<16, Z32>(&c, mc); probe::<16, Z1>(&c, mc); }
         }
